@@ -130,7 +130,10 @@ def other_generators(tier: str, seed: int, gated: set) -> list[tuple[str, dict]]
             continue
         step = max(1, len(cases) // k)
         for c in cases[::step][:k]:
-            out.append((f"{name}:{c.cid}", c.files))
+            files = dict(c.files)
+            if getattr(c, "src", "src/pk") != "src/pk":
+                files["__src__"] = c.src  # the directory the other check hands to -s (not the default package directory)
+            out.append((f"{name}:{c.cid}", files))
     rng = rng_for(seed, PID, "ties")
     out.append(("c08:ties", c08.tie_package(rng, gated)))
     return out
@@ -156,11 +159,15 @@ def gen(tier: str, seed: int) -> list[Case]:
     for name, files in other_generators(tier, seed, gated):
         if not files:
             continue
+        src_dir = files.pop("__src__", None) if isinstance(files, dict) else None
         nbytes = sum(len(v or "") for v in files.values())
         for _ in range(2 if tier == "quick" else 4):
             opts = osets[oi % 64]
             oi += 1
-            cases.append(Case(cid=f"c01-{name}-o{oi % 64}", files=files, opts=opts, reach=REACH, step_budget=STEP_BUDGET_BASE + STEP_BUDGET_PER_BYTE * nbytes, meta={"kind": "other-generator:" + name.split(":")[0], "bytes": nbytes}))
+            c = Case(cid=f"c01-{name}-o{oi % 64}", files=files, opts=opts, reach=REACH, step_budget=STEP_BUDGET_BASE + STEP_BUDGET_PER_BYTE * nbytes, meta={"kind": "other-generator:" + name.split(":")[0], "bytes": nbytes})
+            if src_dir:
+                c.src = src_dir
+            cases.append(c)
     # whole-package scenarios (layouts, encodings, import forms, hostile docstrings), each under its own option sets
     from ..scenarios import PACKAGE_SCENARIOS
 
@@ -191,6 +198,23 @@ def gen(tier: str, seed: int) -> list[Case]:
     return cases
 
 
+def _nothing_left_to_analyse(case: Case) -> bool:
+    """Without the test-run flag every Python file of the analysed directory lies below a directory called test, tests or docs
+    (the analysed directory itself included): the documented rejection is the documented answer."""
+    if "-tr" in case.opts:
+        return False
+    root = (getattr(case, "src", None) or "src/pk").strip("/")
+    inside = [k for k in case.files if k.endswith(".py") and (k == root or k.startswith(root + "/"))]
+    if not inside:
+        return True
+    rootname = root.split("/")[-1]
+    for k in inside:
+        dirs = [rootname, *k[len(root) + 1 :].split("/")[:-1]]
+        if not any(d in ("test", "tests", "docs") for d in dirs):
+            return False
+    return True
+
+
 def classify(case: Case, rec: dict, chk: Check):
     """Returns a Viol or None; counts discarded (precondition) cases."""
     out = rec["outcome"]
@@ -211,7 +235,7 @@ def classify(case: Case, rec: dict, chk: Check):
         return Viol("step-budget-exceeded", str(e.get("tool_function")), {"budget": case.step_budget, "steps": rec.get("steps"), "frames": e.get("frames")})
     if out == "exception":
         if e.get("type") == "ValueError" and e.get("msg") == "No files found to analyse." and e.get("tool_function") == "get_api":
-            if case.meta.get("expect_rejection"):
+            if case.meta.get("expect_rejection") or _nothing_left_to_analyse(case):
                 return None
             return Viol("non-empty-input-rejected", kind, {"exc": e})
         if e.get("type") == "CompileError" and e.get("module", "").startswith("mypy"):
